@@ -124,9 +124,13 @@ def _q20b(p0, p1, p2, p3, op, ki, vi):
             model.pop(k, None)
         else:
             got = w.config_get(k)
-            want = user[k] if k in user else (CONFIG_DEFAULTS[k] if k in CONFIG_DEFAULTS else "<not set>")
-            if not _same(got, want):
-                return "get %r -> %r, expected %r" % (k, got, want)
+            if k in user or k in CONFIG_DEFAULTS:
+                want = user[k] if k in user else CONFIG_DEFAULTS[k]
+                if not _same(got, want):
+                    return "get %r -> %r, expected %r" % (k, got, want)
+            elif any(_same(got, v) or got == str(v) for v in user.values()):
+                # a key that is not set: whatever gwf prints (the wording is free), it is not another key's value
+                return "get of the unset key %r printed %r, which is the value of another key" % (k, got)
         after = json.loads(w.vfs.files[CONF][1])
         if set(after) != set(model):
             return "after the step the file holds keys %s, expected %s" % (sorted(after), sorted(model))
